@@ -248,7 +248,10 @@ GridOut run_grid(const std::vector<Vec> &pos, const Box<> &box, int threads,
       }
     }
     for (auto &q : queries) {
-      if (query_overflows(q, box, n, isnew ? NEWVORONOIGRID_NUM_BUCKET : 10, !isnew))
+      // (the grid runs in a forked child: an out-of-bounds bucket index shows up
+      // as a crash of the child, see run_isolated)
+      if (getenv("C15_GUARD_QUERIES") &&
+          query_overflows(q, box, n, isnew ? NEWVORONOIGRID_NUM_BUCKET : 10, !isnew))
         o.index.push_back(-2);
       else
         o.index.push_back((int64_t)grid.get_index(q));
@@ -1328,6 +1331,8 @@ VResult o_old(const VCase &c) {
   g_delta = DELTA;
   if (!r.ok && r.known.empty() && old_tolerance_prone(P))
     r.known = "oldvoronoi_tolerance_near_degenerate";
+  else if (!r.ok && r.known.empty() && sliver_prone(P))
+    r.known = "newvoronoi_sliver_geometry"; // the differential sees it as well
   debug("old", P, st, sep);
   if (!r.ok && getenv("C15_NOFAIL")) {
     fprintf(stderr, "C15FAIL old cls=%d n=%zu sep=%.2e %016llx known=%s %s\n", P.cls,
@@ -1411,7 +1416,10 @@ VResult o_index(const VCase &c) {
                    : run_isolated<OldVoronoiGrid>(P.pos, P.box, 1, P.queries, false, G);
     const char *name = which == 0 ? "NewVoronoiGrid" : "OldVoronoiGrid";
     if (!err.empty()) {
-      r.fail(fmt("%s: construction failed on a valid input: %s", name, err.c_str()));
+      r.fail(fmt("%s: construction or get_index failed on a valid input: %s", name,
+                 err.c_str()));
+      if (err.compare(0, 6, "signal") == 0)
+        r.known = "pointlocations_top_wall_bucket"; // positions 1-3 ulp below a wall
       if (getenv("C15_TRACE"))
         rename("last.case", "sig.case");
       return r;
